@@ -10,6 +10,8 @@ import (
 	"math/rand"
 	"strings"
 
+	"github.com/prometheus/prometheus/model/histogram"
+	"github.com/prometheus/prometheus/model/value"
 	"github.com/prometheus/prometheus/tsdb/chunkenc"
 	"github.com/prometheus/prometheus/tsdb/chunks"
 
@@ -106,6 +108,9 @@ func z(v int64) string {
 	}
 	return fmt.Sprintf("%d", v)
 }
+
+// Zs renders an int64 for a cases.v that opened Z_scope.
+func Zs(v int64) string { return z(v) }
 
 func SamplesCoq(ss []S) string {
 	parts := make([]string, len(ss))
@@ -274,6 +279,62 @@ func GenRaw(r *rand.Rand, tier string, res int64, counter bool) []RawS {
 			for j := range out {
 				out[j].T -= out[len(out)/2].T
 			}
+		}
+	}
+	return out
+}
+
+type fsample struct {
+	t int64
+	v float64
+}
+
+func (s fsample) T() int64                      { return s.t }
+func (s fsample) F() float64                    { return s.v }
+func (s fsample) H() *histogram.Histogram       { return nil }
+func (s fsample) FH() *histogram.FloatHistogram { return nil }
+func (s fsample) Type() chunkenc.ValueType      { return chunkenc.ValFloat }
+func (s fsample) Copy() chunks.Sample           { return s }
+
+// TSDBSamples converts the input samples (NaN / stale markers included).
+func TSDBSamples(in []RawS) []chunks.Sample {
+	var ss []chunks.Sample
+	for _, s := range in {
+		v := float64(s.V)
+		switch s.K {
+		case "nan":
+			v = math.NaN()
+		case "stale":
+			v = math.Float64frombits(value.StaleNaN)
+		}
+		ss = append(ss, fsample{s.T, v})
+	}
+	return ss
+}
+
+// GenDense draws n samples, about one per window of resolution res (gauge values).
+func GenDense(r *rand.Rand, res int64, n int) []RawS {
+	t := common.Pick(r, int64(0), 5, 1000000)
+	out := make([]RawS, 0, n)
+	for i := 0; i < n; i++ {
+		out = append(out, RawS{T: t, V: int64(r.Intn(2001)) - 1000})
+		t += common.Pick(r, res, res, res+1, 2*res, (res+1)/2)
+	}
+	return out
+}
+
+// GenDenseCounter draws n counter samples, about one per window, with resets.
+func GenDenseCounter(r *rand.Rand, res int64, n int) []RawS {
+	t := common.Pick(r, int64(0), 5, 1000000)
+	v := int64(r.Intn(100))
+	out := make([]RawS, 0, n)
+	for i := 0; i < n; i++ {
+		out = append(out, RawS{T: t, V: v})
+		t += common.Pick(r, res, res, res+1, 2*res, (res+1)/2)
+		if r.Intn(15) == 0 {
+			v = int64(r.Intn(3))
+		} else {
+			v += int64(r.Intn(50))
 		}
 	}
 	return out
